@@ -21,15 +21,20 @@ RULE = ("four monitors over all 19 algorithm variants x all partitions x d=1..3:
         "=random and the digests compared; (interleave) two independently built instances (same or different classes) "
         "are driven by a random schedule - incl. B's whole rounds between A's pull and receive_reward - raw for "
         "RNG-free configurations and with NumPy's global state saved/restored per instance otherwise, and each must "
-        "reproduce its solo sequence; non-trivial = >= 50 points compared")
+        "reproduce its solo sequence; (sandwich) X, then another instance of the same class on an equal-valued domain, then "
+        "X again: the two X runs must be identical; non-trivial = >= 50 points compared")
 ASSUMPTIONS = [
     "interleaving of RNG-consuming configurations saves/restores NumPy's global state per instance (stronger than the property requires: it asks for RNG-free partitions in the interleaving part)",
     "cases are generated where the documented loop completes (known findings of C01 excluded)",
     "a foreign entropy source bound at import time (from random import random) is seen through Python's global random state and through the twin runs, not through the call counters",
 ]
 FLOOR = {"points_compared": {"quick": 60000, "thorough": 1500000}, "fresh_process_runs": {"quick": 60, "thorough": 600},
-         "interleaved_schedules": {"quick": 120, "thorough": 2500}, "boxes_compared": {"quick": 300, "thorough": 6000}}
+         "interleaved_schedules": {"quick": 120, "thorough": 2500}, "boxes_compared": {"quick": 150, "thorough": 2000},
+         "sandwich_runs": {"quick": 100, "thorough": 1500}}
 WALL = {"quick": 1200, "thorough": 4 * 3600}
+
+
+FLAT_FAMS = ["const", "zero", "tied", "twoval", "neg", "noisy", "unit", "drift", "large", "incr"]
 
 
 class EntropyGuard:
@@ -80,16 +85,25 @@ def gen_cases(rng, tier, count=None):
     for i in range(count):
         k = i % 10
         algo = C.ALGOS[(i // 10 + i) % len(C.ALGOS)]
-        if k < 5:
+        if k < 3:
             c = TW.safe_case(rng, algo, tier)
             c["kind"] = "repro"
+        elif k < 5:
+            # sandwich: X, then another instance Y of the same class on an equal-valued domain (other partition,
+            # parameters, seed, rewards), then X again: hidden state that outlives an instance (class-level caches,
+            # shared lists) makes the second X differ from the first
+            X = TW.safe_case(rng, algo, tier, n_choices=[100, 128, 150], fams=FLAT_FAMS)
+            Y = TW.safe_case(rng, algo, tier, n_choices=[100, 128, 150], dim=len(X["box"]), fams=FLAT_FAMS)
+            Y["box"] = [list(iv) for iv in X["box"]]
+            c = dict(X)
+            c.update(kind="sandwich", Y=Y, _cost=2 * X["_cost"] + Y["_cost"])
         elif k < 6:
             c = TW.safe_case(rng, algo, tier, n_choices=[100, 128])
             c["kind"] = "hashseed"
             c["_cost"] = 1.5
         else:
             raw = k < 8
-            algoB = C.ALGOS[int(rng.integers(len(C.ALGOS)))] if rng.random() < 0.5 else algo
+            algoB = C.ALGOS[int(rng.integers(len(C.ALGOS)))] if rng.random() < 0.35 else algo
             if raw:
                 cands = [a for a in C.ALGOS if a != "VROOM"]
                 if algo == "VROOM":
@@ -97,11 +111,18 @@ def gen_cases(rng, tier, count=None):
                 if algoB == "VROOM":
                     algoB = "T_HOO"
                 pa, pb = str(rng.choice(C.RNG_FREE_1D)), str(rng.choice(C.RNG_FREE_1D))
-                A = TW.safe_case(rng, algo, tier, part=pa, dim=1, n_choices=[100, 128, 150])
-                B = TW.safe_case(rng, algoB, tier, part=pb, dim=1, n_choices=[100, 128, 150])
+                A = TW.safe_case(rng, algo, tier, part=pa, dim=1, n_choices=[100, 128, 150], fams=FLAT_FAMS)
+                B = TW.safe_case(rng, algoB, tier, part=pb, dim=1, n_choices=[100, 128, 150], fams=FLAT_FAMS)
             else:
-                A = TW.safe_case(rng, algo, tier, n_choices=[100, 128, 150])
-                B = TW.safe_case(rng, algoB, tier, n_choices=[100, 128, 150])
+                A = TW.safe_case(rng, algo, tier, n_choices=[100, 128, 150], fams=FLAT_FAMS)
+                B = TW.safe_case(rng, algoB, tier, n_choices=[100, 128, 150], fams=FLAT_FAMS,
+                                 dim=len(A["box"]) if rng.random() < 0.6 else None)
+            if rng.random() < 0.5 and len(A["box"]) == len(B["box"]):
+                # the two instances get equal-valued (but separate) domain objects: hidden state keyed by the domain
+                B["box"] = [list(iv) for iv in A["box"]]
+                B["box_kind"] = A["box_kind"]
+            elif rng.random() < 0.5:
+                B["box"] = [list(A["box"][0]) for _ in B["box"]]
             c = {"kind": "interleave", "raw": raw, "A": A, "B": B, "sched_seed": int(rng.integers(1 << 30)),
                  "algo": "%s|%s" % (algo, algoB), "part": "%s|%s" % (A["part"], B["part"]), "box": A["box"],
                  "n": A["n"], "T": A["T"], "reward": A["reward"], "np_seed": A["np_seed"], "params": {},
@@ -169,6 +190,22 @@ def run_hashseed(case, viol, obs):
         obs["points_compared"] += len(r1["points"]) + 1
         if line[0].split()[1] != d0:
             V(viol, "C14:fresh_process_with_other_hash_seed_gives_different_points", hashseed=hs)
+    return None
+
+
+def run_sandwich(case, viol, obs):
+    X, Y = {k: v for k, v in case.items() if k not in ("Y", "kind")}, case["Y"]
+    r1 = TW.run_points(X)
+    if r1["crash"]:
+        return "crash:" + r1["crash"]
+    TW.run_points(Y)
+    r2 = TW.run_points(X)
+    obs["sandwich_runs"] += 1
+    obs["points_compared"] += len(r1["points"]) + 1
+    d = TW.first_diff(r1["points"], r2["points"])
+    if d or r2["crash"] or r1["last"] != r2["last"]:
+        V(viol, "C14:run_differs_after_another_instance_of_the_class_was_used", round=d[0] if d else None,
+          before=d[1] if d else r1["last"], after=d[2] if d else (r2["crash"] or r2["last"]), other_part=Y["part"])
     return None
 
 
@@ -240,7 +277,7 @@ def run_interleave(case, viol, obs):
 def run_case(case):
     viol, obs = [], __import__("collections").Counter()
     kind = case.get("kind", "repro")
-    why = {"repro": run_repro, "hashseed": run_hashseed, "interleave": run_interleave}[kind](case, viol, obs)
+    why = {"repro": run_repro, "hashseed": run_hashseed, "interleave": run_interleave, "sandwich": run_sandwich}[kind](case, viol, obs)
     res = {"viol": viol, "obs": dict(obs), "nontrivial": obs.get("points_compared", 0) >= 50}
     if why:
         if why.startswith("crash"):
